@@ -335,9 +335,9 @@ PLANS["C14"] = dict(
              validate=dict(module="Trace_CRLCacheSeq", cfg=C15_TRACE)),
         # the trivial interleavings - store, read, store again, read again, by two cache objects on one directory whose file system
         # keeps coarse time stamps, with entries that are all of one size: a read that starts after a store has returned yields that store
-        dict(name="sequential", gen=dict(module="MC_CRLCache_C15", cfg=lambda tier, seed: mc_cfg(["Inv_C15", "Inv_Emit"], consts=['URLs = {"u1", "u2"}', "Bundles <- MCBundlesSmall",
-                                                                                                                     'Corruptions = {"bitflip"}', "Depth = 4" if tier == "thorough" else "Depth = 3"]),
-                                       select=slicer2(6000, 60000)),
+        dict(name="sequential", gen=dict(module="MC_CRLCache_C15", cfg=lambda tier, seed: mc_cfg(["Inv_C15", "Inv_Emit"], consts=['URLs = {"u1"}', "Bundles <- MCBundlesSmall",
+                                                                                                                     'Corruptions = {"bitflip"}', "Depth = 5" if tier == "thorough" else "Depth = 4"]),
+                                       select=slicer2(12000, 120000)),
              drive=dict(driver="crl-seq"), validate=dict(module="Trace_CRLCacheSeq", cfg=C15_TRACE)),
         # readers without pause against writers without pause (a few seconds, several hundred thousand reads): per-reader counts
         dict(name="hammer", drive=dict(driver="crl-hammer"), validate=dict(module="Trace_CRLHammer", cfg=trace_cfg(), recheck=False)),
@@ -382,6 +382,11 @@ PLANS["C15"] = dict(
              validate=dict(module="Trace_CRLCacheSeq", cfg=C15_TRACE)),
         dict(name="urls", gen=dict(module="MC_CRLCache_C15", cfg=c15_cfg_wide, select=take_all), drive=dict(driver="crl-seq"),
              validate=dict(module="Trace_CRLCacheSeq", cfg=C15_TRACE)),
+        # longer histories over ONE url (store, read, store / damage, read again ...): what a cache object has seen before must not matter
+        dict(name="one-url", gen=dict(module="MC_CRLCache_C15", cfg=lambda tier, seed: mc_cfg(["Inv_C15", "Inv_Emit"], consts=['URLs = {"u1"}', "Bundles <- MCBundlesSmall",
+                                                                                                                  'Corruptions = {"bitflip", "truncate"}', "Depth = 5" if tier == "thorough" else "Depth = 4"]),
+                                    select=slicer2(12000, 120000)),
+             drive=dict(driver="crl-seq"), validate=dict(module="Trace_CRLCacheSeq", cfg=C15_TRACE)),
         # "distinct URLs never share or overwrite an entry" also while stores of different (near-identical) URLs overlap in one FileCache:
         # the gated schedules of the concurrent model (CRLCache.tla, see C14), every entry decoded after every step
         dict(name="overlapping-stores",
